@@ -499,6 +499,60 @@ func runC18(c *eng.Ctx) {
 		ri := c.Fn("coordinator/master.replicaIndex")
 		shiftRange(c, ri)
 	})
+
+	// ---- 5b. first replicas go round the nodes one by one: index = (shard id + start) mod nodes, start fixed for the whole call --------
+	// (the per-round bump belongs to the FOLLOWER shift; bumping the start instead keeps every placement valid and a create
+	// perfectly round-robin, but a grow that begins mid-round then skips one node and doubles up on others)
+	c.Rule("PROV", "coordinator/master.assignReplicasToStorageNodes{first replica = (shard id + fixed start) mod nodes}", func() {
+		f := c.Fn("coordinator/master.assignReplicasToStorageNodes")
+		adds := c.Some(f, eng.AnyCallTo("models.ShardAssignment.AddReplica"), "shardAssignment.AddReplica(shard, node)")
+		// the first AddReplica of an iteration: its node is storageNodeIDs[firstReplicaIndex]
+		var first ssa.Value
+		for _, a := range adds {
+			node := eng.CallArgs(a.Instr.(*ssa.Call))[1]
+			var idx ssa.Value
+			eng.WalkExpr(node, func(x ssa.Value) bool {
+				if ia, ok := x.(*ssa.IndexAddr); ok && idx == nil {
+					idx = ia.Index
+				}
+				return true
+			})
+			if bo, ok := idx.(*ssa.BinOp); ok && bo.Op == token.REM {
+				if _, isCall := bo.X.(*ssa.Call); !isCall {
+					first = idx
+					break
+				}
+			}
+		}
+		if first == nil {
+			c.Undecided("unresolved anchor: storageNodeIDs[(shard + start) mod n] not found")
+		}
+		bo := first.(*ssa.BinOp)
+		sum, isSum := bo.X.(*ssa.BinOp)
+		c.Check(isSum && sum.Op == token.ADD, "index-is-a-sum-mod-n", bo, f, "the first replica's index is (shard id + start) mod number of nodes", "index is "+p.Desc(first))
+		if !isSum {
+			return
+		}
+		// one operand follows the shard id (steps by one per shard), the other is the same value for every shard of the call
+		loop := innermostLoop(f, bo.Block())
+		varying, fixed := 0, 0
+		for _, op := range []ssa.Value{sum.X, sum.Y} {
+			carried := false
+			eng.WalkExpr(op, func(x ssa.Value) bool {
+				if ph, ok := x.(*ssa.Phi); ok && loop != nil && ph.Block() == loop {
+					carried = true
+				}
+				return true
+			})
+			if carried {
+				varying++
+			} else {
+				fixed++
+			}
+		}
+		c.Check(varying == 1 && fixed == 1, "start-is-fixed-for-the-call", bo, f,
+			"exactly one summand changes from shard to shard (the shard id); the start position is not modified inside the loop", fmt.Sprintf("%d loop-carried summand(s), %d fixed", varying, fixed))
+	})
 }
 
 // constOf0 is constOf for untyped/iota constants of a package.
